@@ -832,6 +832,55 @@ func run(c *vh.Ctx) {
 		p := parrots[c.Rng.Intn(len(parrots))]
 		do(kind, p, chooseWorld(c, p, ops), ops)
 	}
+	// random documented flows: [SetSessionCache] (inspect / edit)* [inject a session] (inspect / build / edit)* Handshake,
+	// on a ClientHelloID that usually has the extension for the injected session, against the matching server
+	flows := budget / 5
+	if c.Tier != "quick" {
+		flows = budget / 4
+	}
+	for f := 0; f < flows; f++ {
+		var ops []op
+		w := worldCfg{omit: true}
+		if c.Rng.Intn(2) == 0 {
+			w.cache0 = true
+		} else {
+			ops = append(ops, op{kC, 0})
+		}
+		for i := c.Rng.Intn(3); i > 0; i-- {
+			ops = append(ops, []op{{kW, 0}, {kE, 1 + c.Rng.Intn(4)}}[c.Rng.Intn(2)])
+		}
+		inj := 0
+		if c.Rng.Intn(5) != 0 {
+			o := []op{{kT, 1}, {kT, 2}, {kT, 5}, {kS, 1}, {kS, 2}, {kP, 1}, {kP, 3}, {kP, 1}, {kP, 3}}[c.Rng.Intn(9)]
+			inj = o.injects()
+			ops = append(ops, o)
+		} else {
+			w.hit = []int{0, 12, 13, 13}[c.Rng.Intn(4)]
+		}
+		for i := c.Rng.Intn(4); i > 0; i-- {
+			ops = append(ops, []op{{kW, 0}, {kB, 0}, {kE, 1 + c.Rng.Intn(4)}, {kB, 0}, {kE, 1 + c.Rng.Intn(4)}}[c.Rng.Intn(5)])
+		}
+		ops = append(ops, op{kH, 0})
+		var cand []parrot
+		for _, p := range parrots {
+			if (inj == 1 && p.tickets > 0) || (inj == 2 && p.psk) || (inj == 0 && (w.hit != 13 || p.psk)) {
+				cand = append(cand, p)
+			}
+		}
+		p := parrots[c.Rng.Intn(len(parrots))]
+		if c.Rng.Intn(4) != 0 && len(cand) > 0 {
+			p = cand[c.Rng.Intn(len(cand))]
+		}
+		switch {
+		case inj == 1:
+			w.srv13 = c.Rng.Intn(6) == 0
+		case inj == 2 || w.hit == 13:
+			w.srv13 = c.Rng.Intn(6) != 0
+		default:
+			w.srv13 = c.Rng.Intn(2) == 0
+		}
+		do(fmt.Sprintf("flow_len%d", len(ops)), p, w, ops)
+	}
 	n := 0
 	for _, ks := range all {
 		if c.Tier == "quick" && len(ks) == 3 && c.Rng.Intn(2) == 0 {
